@@ -565,14 +565,18 @@ def run(P, rep, tier):
                 continue
             uses_h = any(x[0] == 'm' and x[1].endswith('.frame_height') for x in subexprs(e))
             if uses_h:
-                nst += 1
                 bad = []
+                nev = 0
                 for H in (64, 120, 121, 122, 127, 128, 186, 192, 250, 256):
                     env = {x[1]: H for x in subexprs(e) if x[0] == 'm' and x[1].endswith('.frame_height')}
                     env.update({x[1]: 1 for x in subexprs(e) if x[0] == 'm' and x[1].endswith('.sb_rows')})
                     v = _pev(e, env, {'sb_row': 0})
+                    nev += v is not None
                     if v is not None and v != (H + 7) >> 6:
                         bad.append('H=%d: %d, last stripe is %d' % (H, v, (H + 7) >> 6))
+                if not nev:
+                    continue        # not evaluable: no verdict (the instance floor below then reports analysis-broken, never a silent pass)
+                nst += 1
                 rep.ob('C09.STRIPES', '%s/last-stripe-index' % g.name, not bad, g.loc(dv),
                        'the index of the last stripe is (height + offset - 1) >> 6 for every sample height' if not bad else
                        ('%s takes %s as the index of the stripe holding the last line: wrong for %s - the boundary lines of the real last stripe are never saved and loop restoration reads what nobody wrote (multi-threaded output differs from single-threaded)' % (g.name, pstr(strip(e))[:70], '; '.join(bad[:3]))))
